@@ -22,6 +22,7 @@ func runC05(c *Ctx, tier string) {
 	c.Floor("C05-L1", 40)
 	runTypeOrderSeparatesNamed(c, "C05-T1")
 	runTypeMemberListsReadOnly(c, "C05-I1")
+	runEncoderWritesTypeIDs(c, "C05-W2")
 }
 
 func init() {
